@@ -89,10 +89,19 @@ fn value(h: &str) -> Option<String> {
 /// would) before the sub-filter is negated / combined. Done for every other op line (by the length of
 /// the tree text), so that both the used and the unused state are exercised.
 fn touch(s: &str, f: &Filter) {
-    if s.len() % 2 == 0 {
-        if let Ok(mut c) = Command::build("find") {
-            let _ = c.add_argument(f.clone());
+    match s.len() % 4 {
+        0 => {
+            if let Ok(mut c) = Command::build("find") {
+                let _ = c.add_argument(f.clone());
+            }
         }
+        // rendered by reference: the value that is negated afterwards has itself been rendered
+        2 => {
+            if let Ok(mut c) = Command::build("find") {
+                let _ = c.add_argument(f);
+            }
+        }
+        _ => {}
     }
 }
 
@@ -159,6 +168,32 @@ pub fn exec(op: &[&str]) -> String {
             let io = Cap { input: Cursor::new(b"OK MPD 0.23.5\n".to_vec()), out: Vec::new() };
             let mut conn = Connection::connect(io).expect("connect");
             conn.send(cmd).expect("send");
+            format!("ok:{}", hex(&conn.into_inner().out))
+        }
+        "filter.via" => {
+            // the filter inside the typed commands that carry one, on every builder path
+            if op.len() != 3 {
+                return "badop".into();
+            }
+            let mut p = 0;
+            let Some(f) = parse_tree(op[2], &mut p) else { return "badinput".into() };
+            if p != op[2].len() {
+                return "badinput".into();
+            }
+            use mpd_client::commands::{self as c, Command as _};
+            let raw = match op[1] {
+                "find" => c::Find::new(f).command(),
+                "findw" => c::Find::new(f).sort(Tag::Title).window(2..9).command(),
+                "list" => c::List::new(Tag::Album).filter(f).command(),
+                "listg" => c::List::new(Tag::Album).filter(f).group_by([Tag::Artist, Tag::Date]).command(),
+                "count" => c::Count::new(f).command(),
+                "countg1" => c::Count::new(f).group_by(Tag::Album).command(),
+                "countg2" => c::CountGrouped::new(Tag::Album).filter(f).command(),
+                _ => return "badop".into(),
+            };
+            let io = Cap { input: Cursor::new(b"OK MPD 0.23.5\n".to_vec()), out: Vec::new() };
+            let mut conn = Connection::connect(io).expect("connect");
+            conn.send(raw).expect("send");
             format!("ok:{}", hex(&conn.into_inner().out))
         }
         _ => "badop".into(),
@@ -395,6 +430,9 @@ pub fn gen(cfg: &Cfg) -> Vec<String> {
         let mut budget: isize = r.range(2, 40) as isize;
         let t = gen_tree(&mut r, depth, &mut budget, m);
         ops.push(format!("filter.find {t}"));
+        // the same filter inside one of the typed commands that carry one
+        let path = *r.pick(&["find", "findw", "list", "listg", "count", "countg1", "countg2"]);
+        ops.push(format!("filter.via {path} {t}"));
     }
     ops
 }
